@@ -70,7 +70,7 @@ func drawCfg(t *rapid.T) cfg {
 }
 
 func TestWarmUpEnvelope(t *testing.T) {
-	hx.Check(t, hx.N{Quick: 250, Thorough: 2500}, func(t *rapid.T, c *hx.Case) {
+	hx.Check(t, hx.N{Quick: 1500, Thorough: 20000}, func(t *rapid.T, c *hx.Case) {
 		g := drawCfg(t)
 		cf := g.cf()
 		floorT := int(math.Floor(g.T))
@@ -200,7 +200,7 @@ func TestWarmUpEnvelope(t *testing.T) {
 // ---- memory-adaptive -------------------------------------------------------------------------------
 
 func TestMemoryAdaptive(t *testing.T) {
-	hx.Check(t, hx.N{Quick: 3000, Thorough: 30000}, func(t *rapid.T, c *hx.Case) {
+	hx.Check(t, hx.N{Quick: 18000, Thorough: 240000}, func(t *rapid.T, c *hx.Case) {
 		hx.Reset(hx.Epoch + uint64(rapid.IntRange(0, 999).Draw(t, "t0")))
 		total := int64(system_metric.TotalMemorySize)
 		if total <= 1024 {
